@@ -100,13 +100,31 @@ def safe_word(rnd):
     return "".join(rnd.choice(_string.ascii_lowercase + _string.digits) for _ in range(rnd.randint(1, 8)))
 
 
+def _filesize_values():
+    """every unit boundary and every magnitude of human_readable_size's logarithm: 0, 1, the powers of 1024, of 10 and of
+    10.24 up to 2**63-1 with their neighbours, a few beyond and below zero"""
+    vals = {0, 1, 2, 2 ** 63 - 1, 2 ** 63, 2 ** 64, 2 ** 70, 2 * 10 ** 17, -1, -5, -1024, -(10 ** 17)}
+    for k in range(1, 7):
+        vals |= {1024 ** k - 1, 1024 ** k, 1024 ** k + 1, 5 * 1024 ** k}
+    for k in range(1, 20):
+        vals |= {10 ** k - 1, 10 ** k, 10 ** k + 1, 5 * 10 ** k}
+    for k in range(1, 20):
+        b = int(10.24 ** k)
+        vals |= {b - 1, b, b + 1, b + 2}
+    for k in range(1, 64):
+        vals.add(2 ** k)
+    return sorted(vals)
+
+
+FILESIZE_VALUES = _filesize_values()
+
 SCALAR_TYPES = [
     "string", "wstring", "uri", "path", "varint", "uint16", "uint32", "float", "boolean", "bytes", "datetime",
     "filesize", "unix_file_mode", "digest", "net.ipaddress", "net.ipnetwork", "net.IPAddress", "net.IPNetwork",
     "net.ipv4.Address", "net.ipv4.Subnet", "net.tcp.Port", "net.udp.Port", "command", "dynamic", "dictlist", "stringlist",
     "record",
 ]
-LIST_TYPES = ["string[]", "varint[]", "bytes[]", "path[]", "net.ipaddress[]", "datetime[]", "float[]", "uri[]"]
+LIST_TYPES = ["string[]", "varint[]", "bytes[]", "path[]", "net.ipaddress[]", "datetime[]", "float[]", "uri[]", "filesize[]"]
 ALL_TYPES = SCALAR_TYPES + LIST_TYPES
 TEXT_TYPES = ("string", "wstring", "uri", "path")
 
@@ -157,7 +175,7 @@ def gen_value(rnd, tname, hostile=True):
             "2022-03-04T05:06:07.000008+00:00",
         ])
     if tname == "filesize":
-        return rnd.choice([0, 1, 1023, 1024, 10 ** 6, 5 * 2 ** 40, -5, 10 ** 16, 2 * 10 ** 17, 2 ** 70, rnd.randint(0, 10 ** 12)])
+        return rnd.choice(FILESIZE_VALUES) if rnd.random() < 0.8 else rnd.randint(0, 2 ** 63 - 1)
     if tname == "unix_file_mode":
         return rnd.choice([0, 0o644, 0o100755, 0o7777])
     if tname == "digest":
@@ -1155,17 +1173,44 @@ def regression_checks(rep, workdir, only=None):
                      "b's\\r\\na\\xff\\r\\n'" % (err or "wrote %r" % (data,)),
                      dict(kind="regression", which="csv-escaped-byte", error=err, output=None if data is None else data.hex()))
     if only in (None, "filesize-huge"):
-        for sch in ("csvfile", "line", "text"):
+        # every filesize value of the systematic table (unit boundaries, every magnitude of the logarithm) must render, be
+        # written by all three writers and come back from the CSV unchanged
+        FS = RecordDescriptor("w/fsl", [("filesize", "size"), ("filesize[]", "sizes")])
+        bad = None
+        for v in FILESIZE_VALUES:
             try:
-                r = F(size=2 * 10 ** 17, _generated=TS)
-                data, err, en = run_writer(sch, p("g2." + sch), [r], {})
+                r = FS(size=v, sizes=[v, 0], _generated=TS)
+                texts = (str(r.size), repr(r.size), str(r.sizes))
+                if not texts[0] or texts[0] != repr(r.size) or "\n" in texts[0]:
+                    bad = (v, "str/repr %r" % (texts,))
             except Exception as e:  # noqa
-                data, err = None, "%s: %s" % (type(e).__name__, e)
-            if data is None:
-                rep.fail(dict(cls="value-text-form-raises", type="filesize"),
-                         "%s writer on the valid record <w/fs size=filesize(2*10**17)>: %s" % (sch, err),
-                         dict(kind="regression", which="filesize-huge", writer=sch, error=err))
+                bad = (v, "%s: %s" % (type(e).__name__, e))
+            if bad:
                 break
+        if bad is None:
+            recs = [FS(size=v, sizes=[v, 1], _generated=TS) for v in FILESIZE_VALUES]
+            for sch in ("csvfile", "line", "text"):
+                data, err, en = run_writer(sch, p("g2." + sch), recs, {"fields": "size,sizes"} if sch != "text" else {})
+                if data is None:
+                    # find the record the writer fails on
+                    for r in recs:
+                        d1, e1, _ = run_writer(sch, p("g2one." + sch), [r], {})
+                        if d1 is None:
+                            bad = (int(r.size), "%s writer: %s" % (sch, e1))
+                            break
+                    bad = bad or (None, "%s writer: %s" % (sch, err))
+                    break
+                if sch == "csvfile":
+                    rows = py_csv_rows(data)
+                    want = [["size", "sizes"]] + [[str(r.size), str(r.sizes)] for r in recs]
+                    if rows != want:
+                        k = next(i for i in range(len(want)) if i >= len(rows) or rows[i] != want[i])
+                        bad = (FILESIZE_VALUES[max(0, k - 1)], "CSV row %d reads back as %r, expected %r" % (k, rows[k] if k < len(rows) else None, want[k]))
+                        break
+        if bad is not None:
+            rep.fail(dict(cls="value-text-form-raises", type="filesize"),
+                     "the text writers fail on the valid record <w/fsl size=filesize(%r) sizes=[filesize(%r), ...]>: %s" % (bad[0], bad[0], bad[1]),
+                     dict(kind="regression", which="filesize-huge", value=repr(bad[0]), error=bad[1]))
     if only in (None, "grouped-name"):
         N = RecordDescriptor("w/named", [("string", "name")])
         g = GroupedRecord("grp", [N(name="field-value", _generated=TS)])
